@@ -7,9 +7,16 @@ import os
 class SimOS:
     """Stand-in for the `os` module as seen by zope.testrunner.find."""
 
-    def __init__(self, rng, unlink_faults=None, shuffle=True):
+    def __init__(self, rng, unlink_faults=None, shuffle=True, concurrent=None, orphans=()):
         self._rng = rng
         self._faults = dict(unlink_faults or {})   # n-th unlink -> exception name
+        # a concurrent writer (code generator, the tests of another runner): just before the
+        # n-th unlink it writes the source file beside a stale-looking bytecode file of ANOTHER
+        # directory - from then on that file is no orphan
+        self._concurrent = dict(concurrent or {})
+        self._orphans = list(orphans)
+        self.written = []        # source files the concurrent writer created
+        self.protected = []      # bytecode files that stopped being orphans
         self._shuffle = shuffle
         self.unlinked = []
         self.unlink_attempts = 0
@@ -25,8 +32,23 @@ class SimOS:
                 self._rng.shuffle(files)
             yield dirpath, dirs, files     # the very lists os.walk prunes on
 
+    def _concurrent_write(self, current):
+        here = os.path.realpath(os.path.dirname(current))
+        cands = [p for p in self._orphans
+                 if os.path.lexists(p) and not os.path.lexists(p[:-1])
+                 and os.path.realpath(os.path.dirname(p)) != here and p not in self.protected]
+        if not cands:
+            return
+        p = cands[self._rng.randrange(len(cands))]
+        with open(p[:-1], 'w') as fh:
+            fh.write('x = 1\n')
+        self.written.append(p[:-1])
+        self.protected.append(p)
+
     def unlink(self, path, *a, **kw):
         self.unlink_attempts += 1
+        if self._concurrent.get(self.unlink_attempts):
+            self._concurrent_write(path)
         exc = self._faults.get(self.unlink_attempts)
         if exc == 'FileNotFoundError':
             # a concurrent runner removed it first
